@@ -9,7 +9,8 @@
    Gallina model here; harness/corr_C12.py keeps a numeric test of that clause on the
    implementation (this is where F5, the longitude-branch defect, is caught). *)
 From Coq Require Import List NArith ZArith Arith Bool.
-From Toasty Require Import Model.Quadtree Model.ToastTerm Proofs.ToastTermP.
+From Coq Require Import Reals.
+From Toasty Require Import Model.Quadtree Model.ToastTerm Proofs.ToastTermP Geom.Cone Geom.ToastReal.
 Import ListNotations.
 Local Open Scope N_scope.
 
@@ -84,3 +85,50 @@ Example descent_selection_nonvacuous :
   let sc := fun t : htile => (- Z.of_N ((px (tpos t) + 2 * py (tpos t) + 1) mod 3))%Z in
   option_map (fun t => tpos t) (lookup hbase hmid (fun s => Z.eqb s 0) Z.gtb sc Planet 3) = Some (mkPos 3 3 4).
 Proof. vm_compute. reflexivity. Qed.
+
+(* ====================================================================================
+   Real layer: exact arithmetic.  lookup_R is toast_tile_for_point over R with the repaired
+   level-1 test (fixes/C12-1.patch); lookup_R_coded is the code as it stands (toast.py:223-232
+   ignores coordsys).  score = 0 iff the four half-space determinants are >= 0 (score_is_containment);
+   inU: in one of the tile's two triangles; inQ: the code's four half-spaces. *)
+
+Theorem score_is_containment :
+  forall p (t : gtile vec), rscore p t = 0%R <-> inQ t p.
+Proof. exact rscore_zero. Qed.
+Print Assumptions score_is_containment.
+
+(* for every latitude in [-pi/2, pi/2], every real longitude, every depth >= 1 and both
+   coordinate systems the returned tile has the requested depth and contains the point *)
+Theorem lookup_contains :
+  forall cs depth lat lon t, (- (PI / 2) <= lat <= PI / 2)%R ->
+  lookup_R cs depth lat lon = Some t ->
+  inU t (xyz lat lon) /\ inQ t (xyz lat lon) /\ pn (tpos t) = depth.
+Proof. exact lookup_contains_R. Qed.
+Print Assumptions lookup_contains.
+
+(* longitudes differing by multiples of 2 pi give the same answer *)
+Theorem lookup_periodic :
+  forall cs depth lat lon (k : Z),
+  lookup_R cs depth lat (lon + IZR k * (2 * PI))%R = lookup_R cs depth lat lon.
+Proof. exact lookup_periodic_R. Qed.
+Print Assumptions lookup_periodic.
+
+(* F4: the code as it stands fails for the planetary system (witness lat 0, lon pi/4, depth 1) ... *)
+Theorem lookup_planetary_refuted :
+  exists lat lon depth t, (- (PI / 2) <= lat <= PI / 2)%R /\
+    lookup_R_coded Planet depth lat lon = Some t /\ ~ inU t (xyz lat lon).
+Proof. exact lookup_planetary_refuted_R. Qed.
+Print Assumptions lookup_planetary_refuted.
+
+(* ... and is the repaired lookup for the astronomical one *)
+Theorem lookup_coded_astronomical_is_repaired :
+  forall depth lat lon, lookup_R_coded Astro depth lat lon = lookup_R Astro depth lat lon.
+Proof. exact lookup_coded_astronomical. Qed.
+Print Assumptions lookup_coded_astronomical_is_repaired.
+
+(* convexity of TOAST tiles at the ends of their diagonal: the code's four-half-space test is
+   the union of the two triangles (wfQ holds for every tile reached by the lookup) *)
+Theorem four_halfspaces_are_the_two_triangles :
+  forall (t : gtile vec) p, wfQ t -> (inQ t p <-> inU t p).
+Proof. exact inQ_iff_inU. Qed.
+Print Assumptions four_halfspaces_are_the_two_triangles.
